@@ -152,9 +152,38 @@ func implies(a, b *Term) *Term {
 	return app(SBool, "=>", a, b)
 }
 
+func isNumLit(t *Term) bool {
+	if t.Sort != SInt || len(t.S) == 0 {
+		return false
+	}
+	for _, c := range t.S {
+		if c < '0' || c > '9' {
+			return false
+		}
+	}
+	return true
+}
+
 func eq(a, b *Term) *Term {
 	if a.S == b.S {
 		return tTrue
+	}
+	if isNumLit(a) && isNumLit(b) {
+		return tFalse
+	}
+	if a.Sort == SBool {
+		if isLitTrue(a) {
+			return b
+		}
+		if isLitTrue(b) {
+			return a
+		}
+		if isLitFalse(a) {
+			return not(b)
+		}
+		if isLitFalse(b) {
+			return not(a)
+		}
 	}
 	return app(SBool, "=", a, b)
 }
@@ -220,8 +249,39 @@ func skipSort(s string) int {
 	panic("unbalanced sort " + s)
 }
 
-func add(a, b *Term) *Term { return app(SInt, "+", a, b) }
-func sub(a, b *Term) *Term { return app(SInt, "-", a, b) }
+func smallNum(t *Term) (int64, bool) {
+	if !isNumLit(t) || len(t.S) > 15 {
+		return 0, false
+	}
+	n, err := strconv.ParseInt(t.S, 10, 64)
+	return n, err == nil
+}
+
+func add(a, b *Term) *Term {
+	x, okx := smallNum(a)
+	y, oky := smallNum(b)
+	switch {
+	case okx && oky:
+		return intLit(x + y)
+	case okx && x == 0:
+		return b
+	case oky && y == 0:
+		return a
+	}
+	return app(SInt, "+", a, b)
+}
+
+func sub(a, b *Term) *Term {
+	x, okx := smallNum(a)
+	y, oky := smallNum(b)
+	switch {
+	case okx && oky && x >= y:
+		return intLit(x - y)
+	case oky && y == 0:
+		return a
+	}
+	return app(SInt, "-", a, b)
+}
 func lt(a, b *Term) *Term  { return app(SBool, "<", a, b) }
 func le(a, b *Term) *Term  { return app(SBool, "<=", a, b) }
 func ge(a, b *Term) *Term  { return app(SBool, ">=", a, b) }
@@ -250,6 +310,7 @@ type Obligation struct {
 	Known    string // matched known finding text, if any
 	Class    string // counterexample class label for known-finding matching
 	Bounded  bool
+	NoAssume bool // do not turn into an assumption after the check (pure consequences such as frame conditions)
 	queryTxt string
 }
 
@@ -263,6 +324,8 @@ type Script struct {
 	n     int
 	obs   []*Obligation
 	seen  map[string]bool // declared names
+	asserted map[string]int
+	timeoutMs int
 	noDef int             // >0: inside a quantifier body, terms may not be named at top level
 }
 
@@ -321,7 +384,24 @@ func (sc *Script) assume(t *Term) {
 	if isLitTrue(t) {
 		return
 	}
+	if sc.asserted == nil {
+		sc.asserted = map[string]int{}
+	}
+	if _, dup := sc.asserted[t.S]; dup {
+		return
+	}
+	sc.asserted[t.S] = len(sc.lines)
 	sc.emit("(assert " + t.S + ")")
+}
+
+// truncate rolls the script back to n lines (scratch runs).
+func (sc *Script) truncate(n int) {
+	sc.lines = sc.lines[:n]
+	for k, i := range sc.asserted {
+		if i >= n {
+			delete(sc.asserted, k)
+		}
+	}
 }
 
 func (sc *Script) addOb(ob *Obligation) {
@@ -348,7 +428,7 @@ func (sc *Script) render(target *Obligation) string {
 		if i == target.at {
 			break
 		}
-		if !l.ob.Cover {
+		if !l.ob.Cover && !l.ob.NoAssume {
 			b.WriteString("(assert " + implies(l.ob.Guard, l.ob.Cond).S + ")\n")
 		}
 	}
@@ -374,12 +454,17 @@ func (sc *Script) renderIncremental() string {
 		ob := l.ob
 		b.WriteString("(push 1)\n")
 		if ob.Cover {
+			// covers are expected to be sat; with quantifiers the answer is usually unknown: do not wait for it
+			b.WriteString("(set-option :timeout 1000)\n")
 			b.WriteString("(assert " + and(ob.Guard, ob.Cond).S + ")\n")
 		} else {
 			b.WriteString("(assert " + and(ob.Guard, not(ob.Cond)).S + ")\n")
 		}
 		b.WriteString("(check-sat)\n(pop 1)\n")
-		if !ob.Cover {
+		if ob.Cover {
+			b.WriteString(fmt.Sprintf("(set-option :timeout %d)\n", sc.timeoutMs))
+		}
+		if !ob.Cover && !ob.NoAssume {
 			b.WriteString("(assert " + implies(ob.Guard, ob.Cond).S + ")\n")
 		}
 	}
